@@ -155,10 +155,8 @@ class LiaDomain:
                     lowz = (m & -m).bit_length() - 1
                     top = m.bit_length()
                     if m == ((1 << top) - 1) ^ ((1 << lowz) - 1):
-                        if not signed or True:
-                            alo, _ = self.interval(st, a)
-                            if alo is None or alo < 0:
-                                st.oblige("nowrap", site, ("<=", Poly.const(0), a), "operand of & is non-negative")
+                        # x & (2^top - 2^lowz) = (x mod 2^top) - (x mod 2^lowz) with the floor remainder; this also
+                        # holds for negative two's complement operands
                         _, rt = self.divmod_pow2(st, a, top)
                         if lowz == 0:
                             return rt
